@@ -161,6 +161,9 @@ func doFieldAccess(repo, out string) error {
 				if id, ok := x.X.(*ast.Ident); ok && id.Name == recv {
 					if _, isM := methods[x.Sel.Name]; !isM {
 						add(x.Sel.Name, role, false)
+					} else {
+						// a method value (e.g. `c.stopOnce.Do(c.shutdown)`): whoever receives it may call it, here: this role
+						walkMethod(role, x.Sel.Name)
 					}
 				}
 			}
